@@ -158,7 +158,7 @@ func TestC10(t *testing.T) {
 	if os_only_regress() {
 		return
 	}
-	search(t, rec, "history", budget(2500, 80000), 30, func(rt *rapid.T) {
+	search(t, rec, "history", budget(2500, 640000), 30, func(rt *rapid.T) {
 		w := newC10World(c)
 		fail := func(sig, msg string) {
 			if sig != "" {
